@@ -1,7 +1,7 @@
 """C14 — all step-solver and linear-solver choices compute the same Newton step."""
 from ..gen import Gen
 from ..unit import run_unit
-from ..units.step import Newton, cross_solver_oracle, perform_iteration_oracle
+from ..units.step import Newton, GNewton, cross_solver_oracle, perform_iteration_oracle
 from ..units.linsolve import LinSolve
 
 PROP_FILES = ["props/C14.v"]
@@ -11,7 +11,9 @@ TECHNIQUE = "Coq proof + exact differential correspondence"
 def run(rep, tier, seed, scratch):
     g = Gen(seed)
     # (LinSolve: every linear-solver choice returns the solution of the system it is handed, or raises)
-    for u in (Newton(), LinSolve()):
+    # (GNewton: the Globalized variant hands the four step solvers the same system as the Full variant and takes the
+    # step of the first accepted length)
+    for u in (Newton(), LinSolve(), GNewton()):
         run_unit(rep, u, u.gen(g, tier), scratch)
     cross_solver_oracle(rep, tier, seed)
     perform_iteration_oracle(rep, tier, seed)
